@@ -55,3 +55,48 @@ func H_C15_promise() {
 		}
 	}
 }
+
+// H_C15_promise_hist: sequential histories: three callbacks registered, any subset unsubscribed (in any of two
+// orders), then Trigger: exactly the callbacks that are still registered run once.
+//
+//verif:h prop=C15 cover=done
+func H_C15_promise_hist() {
+	withArg := verifrt.Choose("withArg", 2) == 1
+	var calls [3]int
+	var on func(k int) func()
+	var trigger func()
+	if withArg {
+		e := NewEvent1[int]()
+		on = func(k int) func() { return e.OnTrigger(func(int) { calls[k]++ }) }
+		trigger = func() { e.Trigger(1) }
+	} else {
+		e := NewEvent()
+		on = func(k int) func() { return e.OnTrigger(func() { calls[k]++ }) }
+		trigger = func() { e.Trigger() }
+	}
+	var unsub [3]func()
+	var gone [3]bool
+	for k := 0; k < 3; k++ {
+		unsub[k] = on(k)
+		// unsubscribe an earlier callback between two registrations
+		if k > 0 && verifrt.Choose("unsubEarlier", 2) == 1 && !gone[k-1] {
+			unsub[k-1]()
+			gone[k-1] = true
+		}
+	}
+	for k := 0; k < 3; k++ {
+		if !gone[k] && verifrt.Choose("unsub", 2) == 1 {
+			unsub[k]()
+			gone[k] = true
+		}
+	}
+	trigger()
+	for k := 0; k < 3; k++ {
+		want := 1
+		if gone[k] {
+			want = 0
+		}
+		verifrt.Assert(calls[k] == want, "after unsubscribing some callbacks, Trigger did not run exactly the remaining ones once")
+	}
+	verifrt.Cover("done")
+}
